@@ -212,6 +212,7 @@ int LLVMFuzzerTestOneInput(const uint8_t *data, size_t size)
 }
 
 /* ---------------------------------------------------------------- mutator */
+#ifndef FZ_STANDALONE
 static const char *const keywords[] = {
     "---\n", "...\n", "%YAML 1.1\n", "~", "null", "Null", "NULL", "\"~\"", "''", "\"\"", "{}", "[]", "[~]", "{a: ~}", "- ", "? ", ": ", "&a ", "*a",
     "!!str ", "!!null ", "!!map ", "!!seq ", "|\n", ">\n", "|-\n", "a.b: 1\n", "a[2]: x\n", "a[+]: y\n", "\"a\\\\.b\": z\n", "k=v: w\n", "x#: 1\n",
@@ -223,3 +224,4 @@ size_t LLVMFuzzerCustomMutator(uint8_t *data, size_t size, size_t max_size, unsi
 {
     return fz_text_mutate(data, size, max_size, seed, 0, keywords, sizeof(keywords) / sizeof(keywords[0]));
 }
+#endif /* FZ_STANDALONE */
